@@ -29,7 +29,9 @@ which firing such a trigger joins, so that is counted but not judged -- judged i
 once, in this firing or the next, after every earlier registration of its phase, never out of phase
 order and never while a before-Deferred is unfired.  "Unfired" means "has not delivered": before-triggers
 also return Deferreds that are already fired but whose callback chain waits on an inner unfired Deferred, or
-that are fired and pause()d (delivered later by the schedule); the gate must stay shut for those too.  fireEvent() is not re-entered (unspecified); Deferreds returned by during/after triggers are
+that are fired and pause()d (delivered later by the schedule), or unfired instances of Deferred subclasses
+(DeferredList / gatherResults over an unfired Deferred, a trivial harness subclass); the gate must stay shut for
+those too.  fireEvent() is not re-entered (unspecified); Deferreds returned by during/after triggers are
 ignored by the implementation and by the oracle.
 """
 import gc
@@ -53,13 +55,35 @@ FLOORS = {"trigger_runs": 20000, "order_checks": 20000, "gated_firings": 1000, "
           "duplicate_copy_removed_via_other_handle": 15,
           "added_while_firing_before": 300, "added_while_firing_during": 300, "added_while_firing_after": 300,
           "added_while_firing_ran_in_same_firing": 300, "added_while_firing_left_for_next_firing": 100, "flush_firings": 100,
-          "gated_on_fired_but_chained_deferred": 300, "gated_on_fired_and_paused_deferred": 300}
+          "gated_on_fired_but_chained_deferred": 300, "gated_on_fired_and_paused_deferred": 300,
+          "gated_on_deferred_subclass_instance": 300}
 READY = True
 PHASES = ("before", "during", "after")
 
 
 class Boom(Exception):
     pass
+
+
+def _plain_subclass():
+    from twisted.internet.defer import Deferred
+
+    class PlainSubclassDeferred(Deferred):
+        """A trivial Deferred subclass (what applications and DeferredList/gatherResults hand out)."""
+
+    return PlainSubclassDeferred
+
+
+class _Lazy:
+    cls = None
+
+    def __call__(self):
+        if _Lazy.cls is None:
+            _Lazy.cls = _plain_subclass()
+        return _Lazy.cls()
+
+
+PlainSubclassDeferred = _Lazy()
 
 
 def gen_case(rng):
@@ -69,8 +93,8 @@ def gen_case(rng):
         if phase == "before":
             # Deferred results: fresh unfired / fired but its callback chain waits on an inner unfired Deferred /
             # fired (ok or failed) and pause()d / already delivered
-            kind = ("defer" if r < 0.28 else "dchain" if r < 0.35 else "dpaused" if r < 0.41 else "dnow" if r < 0.46
-                    else "raise" if r < 0.58 else "ret")
+            kind = ("defer" if r < 0.24 else "dsub" if r < 0.32 else "dchain" if r < 0.38 else "dpaused" if r < 0.43
+                    else "dnow" if r < 0.47 else "raise" if r < 0.58 else "ret")
         else:
             kind = "raise" if r < 0.2 else "defer" if r < 0.28 else "ret"
         rm = [rng.randrange(24) for _ in range(rng.choice([0, 0, 0, 0, 0, 0, 0, 1, 1, 2]))]
@@ -225,7 +249,19 @@ class Monitor:
         if t["kind"] == "raise":
             self.stat("raising_triggers")
             raise Boom(eid)
-        if t["kind"] in ("defer", "dchain", "dpaused"):
+        if t["kind"] == "dsub" and phase == "before":
+            # an unfired instance of a Deferred SUBCLASS: DeferredList / gatherResults over an unfired Deferred, or a trivial
+            # harness subclass; any Deferred instance must be waited for
+            variant = eid % 3
+            if variant == 2:
+                token = fire = PlainSubclassDeferred()
+            else:
+                fire = defer.Deferred()
+                token = defer.DeferredList([fire]) if variant == 0 else defer.gatherResults([fire])
+            self.stat("gated_on_deferred_subclass_instance")
+            self.outstanding.append((eid, fire, token, t["ok"]))
+            return token
+        if t["kind"] in ("defer", "dchain", "dpaused", "dsub"):
             # `token` is what the trigger returns; the gate stays shut until its callback chain delivers
             if t["kind"] == "defer" or phase != "before":
                 token = fire = defer.Deferred()
@@ -382,6 +418,8 @@ class Monitor:
         except Exception as e:  # noqa: BLE001
             self.fail("fire-raised", "firing a before-trigger's Deferred raised %s: %s" % (type(e).__name__, e))
         d.addErrback(lambda f: None)
+        if fire is not None and fire is not d:
+            fire.addErrback(lambda f: None)  # (DeferredList/gatherResults leave the inner failure in place)
         if not self.outstanding:
             self.check_complete("last Deferred")
 
